@@ -14,7 +14,7 @@ import Driver.G94Drv
 open Lean BSE.Drv
 
 def allHandlers : List (String × Handler) :=
-  BSE.Drv.C20.handlers ++ BSE.Drv.Shells.handlers ++ BSE.Drv.Store.handlers ++ BSE.Drv.MemoDrv.handlers ++ BSE.Drv.AuxDrv.handlers ++ BSE.Drv.HeaderDrv.handlers ++ BSE.Drv.PrintDrv.handlers ++ BSE.Drv.BundleDrv.handlers ++ BSE.Drv.NwchemDrv.handlers ++ BSE.Drv.G94Drv.handlers
+  BSE.Drv.C20.handlers ++ BSE.Drv.Shells.handlers ++ BSE.Drv.Store.handlers ++ BSE.Drv.MemoDrv.handlers ++ BSE.Drv.AuxDrv.handlers ++ BSE.Drv.HeaderDrv.handlers ++ BSE.Drv.PrintDrv.handlers ++ BSE.Drv.BundleDrv.handlers ++ BSE.Drv.NwchemDrv.handlers ++ BSE.Drv.G94Drv.handlers ++ BSE.Drv.G94Drv.ecpHandlers
 
 def handle (line : String) : String :=
   match Json.parse line with
